@@ -16,6 +16,8 @@ pub mod targets;
 pub mod tokio;
 pub mod tracing;
 pub mod units;
+#[cfg(feature = "verif-hooks")]
+pub mod verif;
 
 pub mod tests;
 pub use tests::util::bgp;
